@@ -148,11 +148,13 @@ pub fn run_one(sc: &Scenario) -> Outcome {
     if done && out.status.success() {
         return Outcome::Clean(kinds);
     }
-    // a panic that escaped `together` (main thread) is still a panic of the code under test
-    if stderr.contains("panicked at") && last_ok.is_some() || (stderr.contains("panicked at") && stdout.contains("MIRISIM")) {
-        let line = stderr.lines().find(|l| l.contains("panicked at")).unwrap_or("");
-        let next = stderr.lines().skip_while(|l| !l.contains("panicked at")).nth(1).unwrap_or("");
-        return Outcome::Violation("panic".into(), format!("main thread of the harness panicked in round {}: {line} {next}", failing.unwrap()), failing);
+    // a panic that escaped `together` (the harness's main thread: parsing, sequential reference
+    // runs) is a panic of the code under test when it was raised inside the repository's sources
+    if let Some(pos) = stderr.find("panicked at") {
+        let text: String = stderr[pos..].lines().take(2).collect::<Vec<_>>().join(" ");
+        if text.contains("/repo/") {
+            return Outcome::Violation("panic".into(), format!("round {}: the main thread of the harness {text:.500}", failing.unwrap()), failing);
+        }
     }
     Outcome::Unavailable(format!("status {:?}; {:.300}; stderr tail: {:.600}", out.status.code(), first_error, stderr.lines().rev().take(6).collect::<Vec<_>>().join(" | ")))
 }
